@@ -3,7 +3,10 @@
 P=$1; PATCH=$2
 cd /repo && git diff --quiet || { echo "/repo not clean"; exit 2; }
 git -C /repo apply "$PATCH" || { echo "patch does not apply"; exit 2; }
-cd /verif && rm -rf replays; ./tools/check $P > /verif/.work/seed_$P.out 2>&1; RC=$?
+cd /verif && rm -rf replays; cp evidence/$P.json /verif/.work/evidence_$P.keep 2>/dev/null
+./tools/check $P > /verif/.work/seed_$P.out 2>&1; RC=$?
 git -C /repo checkout -- .
+# the evidence of a run against a seeded change is not evidence about /repo: put the previous file back
+cp /verif/.work/evidence_$P.keep evidence/$P.json 2>/dev/null
 echo "rc=$RC"; grep -E "^VIOLATION|^KNOWN|^warning" /verif/.work/seed_$P.out | cut -c1-220 | head -6
 for f in $(grep -o "replays/[A-Za-z0-9-]*.case" /verif/.work/seed_$P.out | head -1); do grep "^case:" $f | cut -c1-400; done
